@@ -384,6 +384,7 @@ PRESERVING = [
     ('p15-pass-registry', ['C15'], [(A, 'def resolve_strings(items):', 'LATE_PASSES = []\n\n\ndef late_pass(fn):\n    LATE_PASSES.append(fn)\n    return fn\n\n\n@late_pass\ndef resolve_strings(items):'), (A, 'def resolve_sequences(items):', '@late_pass\ndef resolve_sequences(items):'), (A, 'def transform_shorthand_packs(items):', '@late_pass\ndef transform_shorthand_packs(items):'), (A, 'def resolve_packs(items):', '@late_pass\ndef resolve_packs(items):'), (A, 'def resolve_include_bytes(items):', '@late_pass\ndef resolve_include_bytes(items):'), (A, '    items = resolve_strings(items)\n    items = resolve_sequences(items)\n    items = transform_shorthand_packs(items)\n    items = resolve_packs(items)\n    items = resolve_include_bytes(items)\n', '    for late in LATE_PASSES:\n        items = late(items)\n')]),
     ('p15-line-dataclass', ['C15'], [(A, 'class Line:\n\n    def __init__(self, file, number, contents):\n        self.file = file\n        self.number = number\n        self.contents = contents\n        # resolved path of the file named by an include_bytes line (set by the reader)\n        self.include_path = None\n', 'import dataclasses\nimport typing\n\n\n@dataclasses.dataclass\nclass Line:\n    file: str\n    number: int\n    contents: str\n    # resolved path of the file named by an include_bytes line (set by the reader)\n    include_path: typing.Optional[str] = None\n')]),
     ('p15-linetokens-namedtuple', ['C15'], [(A, 'class LineTokens:\n\n    def __init__(self, line, tokens):\n        self.line = line\n        self.tokens = tokens\n', 'import typing\n\n\nclass LineTokens(typing.NamedTuple):\n    line: Line\n    tokens: list\n'), (A, '    line = line_tokens.line\n    tokens = line_tokens.tokens\n', '    line, tokens = line_tokens\n')]),
+    ('p15-size-percent-format', ['C15'], [(A, "            line.contents = '{} {}'.format(raw_line, size)", "            line.contents = '%s %d' % (raw_line, size)")]),
     ('p15-while-index', ['C15'], [(A, '    for i, raw_line in enumerate(source.splitlines(), start=1):\n', '    rows = source.splitlines()\n    i = 0\n    while i < len(rows):\n        raw_line = rows[i]\n        i += 1\n')]),
     ('p15-range-index', ['C15'], [(A, '    for i, raw_line in enumerate(source.splitlines(), start=1):\n', '    rows = source.splitlines()\n    for pos in range(len(rows)):\n        raw_line = rows[pos]\n        i = pos + 1\n')]),
     ('p15-to-bytes-covered', ['C15'], [(A, '                value = struct.pack(fmt, value)\n', "                value = value.to_bytes(struct.calcsize(fmt), 'little', signed=value < 0)\n"), (A, '            except struct.error as e:\n                raise AssemblerError(\'value {} does not fit "{}": {}\'.format(value, item.name, e), item.line)\n            data.extend(value)', '            except (struct.error, OverflowError) as e:\n                raise AssemblerError(\'value {} does not fit "{}": {}\'.format(value, item.name, e), item.line)\n            data.extend(value)')]),
@@ -441,6 +442,7 @@ PRESERVING = [
 # edits that move the code outside what the analysis can decide: the check must end with ANALYSIS-ERROR (exit 2),
 # neither pass nor claim a violation
 UNDECIDED = [
+    ('c15-size-in-the-middle', ['C15'], [(A, "            line.contents = '{} {}'.format(raw_line, size)", "            line.contents = '{} {} bytes'.format(raw_line, size)")]),
     ('c15-size-token-via-field', ['C15'], [(A, '        _, path, size = tokens\n        size = int(size, base=0)\n', '        operands = {}\n        for position, word in enumerate(tokens):\n            operands[position] = word\n        size = int(operands[2], base=0)\n')]),
     ('c09-align-mod', ['C09'], [(A, "padding = self.alignment - (position % self.alignment)", "padding = self.alignment - (position % (self.alignment + 1))")]),
     ('c17-labels-filtered', ['C17'], [(A, "        lines = ['{} 0x{:08x}\\n'.format(k, v) for k, v in labels.items()]", "        lines = ['{} 0x{:08x}\\n'.format(k, v) for k, v in labels.items() if not k.startswith('_')]")]),
